@@ -29,13 +29,33 @@ def resolve_copy(body, l, limit=12):
 
 
 def flows_to(body, l, target=0, limit=50):
-    """Forward: does local l reach `target` through plain moves/copies?"""
+    """Forward: does local l reach `target` through plain moves/copies — or, for a Result / Option, through a `?` that re-raises
+    it (`x?` returns from_residual(x's error) to the caller: the error x carries reaches the return place)?"""
     S = {l}
     changed = True
     n = 0
+    tries = None
     while changed and n < limit:
         changed = False
         n += 1
+        if tries is None:
+            tries = []
+            for c in body.calls(r'^std::ops::Try::branch$'):
+                if c.args and is_place(c.args[0]) and not op_place(c.args[0])['p']:
+                    tries.append((op_local(c.args[0]), c))
+        for (al, c) in tries:
+            if al in S:
+                # the residual of this `?`: the from_residual call fed by the Break payload of the branch result
+                for r in body.calls(r'^std::ops::FromResidual::from_residual$'):
+                    if r.dest['p'] or r.dest['l'] in S or not r.args or not is_place(r.args[0]):
+                        continue
+                    cur, d = resolve_copy(body, op_local(r.args[0]))
+                    src = None
+                    if d is not None and d.kind == 'assign' and d.rv['k'] == 'use' and is_place(d.rv['a']):
+                        src = op_place(d.rv['a'])
+                    if src is not None and src['l'] == c.dest['l']:
+                        S.add(r.dest['l'])
+                        changed = True
         for b in range(body.n):
             if body.cleanup[b]:
                 continue
@@ -180,6 +200,33 @@ def err_variant_of(body, op):
     return None
 
 
+def assembled_result(body, l, seen=None):
+    """Every definition of local l builds the Result / Option in place: an Ok / Some / Err / None aggregate, the from_residual of
+    an inner `?`, or a move of such a local."""
+    seen = seen if seen is not None else set()
+    if l in seen:
+        return True
+    seen.add(l)
+    ds = [d for d in body.defs().get(l, []) if d.via is None]
+    if not ds:
+        return False
+    for d in ds:
+        if d.kind == 'mutarg' or (d.lhs is not None and d.lhs['p']):
+            return False
+        if d.kind == 'assign':
+            rv = d.rv
+            if rv['k'] == 'agg' and rv.get('adt') in ('std::result::Result', 'std::option::Option'):
+                continue
+            if rv['k'] == 'use' and is_place(rv['a']) and not op_place(rv['a'])['p']:
+                if not assembled_result(body, op_local(rv['a']), seen):
+                    return False
+                continue
+            return False
+        if not d.call.is_(r'^std::ops::FromResidual::from_residual$'):
+            return False
+    return True
+
+
 def reraised_call(body, op):
     """The call whose `Err` payload the operand is (moved out of `(r as Err).0`, possibly through From::from), else None."""
     from .facts import proj_names
@@ -247,6 +294,10 @@ def error_exits(body):
         e.variant = None
         e.desc = '%s?' % (e.src_call.full if e.src_call else '_%s' % ts.src_local)
         e.ln = ts.branch.ln
+        if e.src_call is None and ts.src_local is not None and assembled_result(body, ts.src_local):
+            # `?` on a Result assembled in place (the return value of an inlined helper): it only relays the errors raised
+            # inside, each of which is an exit of its own (flows_to follows them through this `?`)
+            e.kind = 'relay'
         out.append(e)
     for c in body.calls():
         if c.b not in live or c.dest['p']:
@@ -373,6 +424,8 @@ class Fallibility:
             self.memo[key] = True
             return True
         for e in error_exits(body):
+            if e.kind == 'relay':
+                continue
             if e.kind == 'explicit':
                 res = False
                 reasons.append(e.desc)
